@@ -432,7 +432,10 @@ func (p *Prog) Field(pkgSuffix, typ, name string) *types.Var {
 	}
 	obj := lookupObj(pk, typ)
 	if nil == obj {
-		return nil
+		/* Under another name, in whichever package? */
+		if obj = p.renamedStruct(pk.PkgPath, typ); nil == obj {
+			return nil
+		}
 	}
 	st, ok := obj.Type().Underlying().(*types.Struct)
 	if !ok {
